@@ -66,3 +66,32 @@ Proof.
   eexists. split; [exact Hnth|]. cbv beta. fold assigned. fold by_slot. fold named_by_slot. rewrite Hu'.
   split; [|reflexivity]. unfold sw_norm in *. cbn [s_name]. exact Hsame.
 Qed.
+
+(* ---- the switch table, read back by a later load: entry k of the lookup that load builds is switch k with the name written ---- *)
+
+Lemma swnm_go_nth L : forall ids k0 j sid,
+  nth_error ids j = Some sid ->
+  nth_error ((fix go (ids : list N) (k : N) : list (N * rswitch) :=
+                match ids with
+                | [] => []
+                | sid :: r => (k, {| s_name := str_by_id L sid; s_idx := Some k; s_oid := 0 |}) :: go r (k + 1)
+                end) ids k0) j
+  = Some (k0 + N.of_nat j, {| s_name := str_by_id L sid; s_idx := Some (k0 + N.of_nat j); s_oid := 0 |}).
+Proof.
+  induction ids as [|x r IH]; intros k0 j sid H; [destruct j; discriminate|].
+  destruct j as [|j]; simpl in H.
+  - inversion H; subst x. simpl. rewrite N.add_0_r. reflexivity.
+  - simpl. rewrite (IH (k0 + 1) j sid H). replace (k0 + 1 + N.of_nat j) with (k0 + N.of_nat (S j)) by lia. reflexivity.
+Qed.
+
+Theorem an_emitted_switch_table_reads_back L ss v j s :
+  N.of_nat (length (sl_by_id L)) <= 1000000 -> swnm_encode L ss = Ok v -> nth_error ss j = Some s ->
+  nth_error (swnm_lookup L v) j = Some (N.of_nat j, {| s_name := s_name s; s_idx := Some (N.of_nat j); s_oid := 0 |}).
+Proof.
+  intros Hsmall H Hn. unfold swnm_encode in H. inv_bind H as ids Hids Hk.
+  match type of Hk with Ok ?p = Ok _ => assert (v = p) as -> by congruence end. clear Hk.
+  unfold swnm_lookup. change (mk_struct [("_switch_string_ids", VList (map VInt ids))]) with (VPair (VNamed "_switch_string_ids" (VList (map VInt ids))) VUnit). rewrite vints_single.
+  destruct (mapM_nth _ _ _ _ _ Hids Hn) as (sid & Hsid & Hnid).
+  rewrite (swnm_go_nth L ids 0 j sid Hnid). rewrite N.add_0_l.
+  destruct (id_by_str_resolves _ _ _ Hsmall Hsid) as [-> _]. reflexivity.
+Qed.
